@@ -50,6 +50,7 @@ class MemTransport(asyncio.Transport):
         self.lost = False
         self.inflight = collections.deque()
         self.written = 0
+        self.dead_writes = 0
 
     # -- Transport API
     def set_protocol(self, protocol):
@@ -81,6 +82,17 @@ class MemTransport(asyncio.Transport):
 
     def write(self, data):
         if self.closing or self.lost:
+            return
+        p = self.peer
+        if p.closing or p.lost:
+            # the peer's socket is gone (process exit / close): the first write is accepted by the kernel and answered with a
+            # reset; any later write may fail with EPIPE / ECONNRESET, which a socket transport turns into
+            # connection_lost(exc) (selector_events._SelectorSocketTransport.write -> _fatal_error -> _force_close)
+            self.dead_writes += 1
+            if self.dead_writes >= 2 and self._loop.active and self._loop.rst and self._loop.eng.choose(2, 'write-error') == 1:
+                self.closing = True
+                self._loop.deliveries.append(('write-error', self.label))
+                self._loop.call_soon(self._lost, BrokenPipeError(32, 'Broken pipe'))
             return
         self.written += 1
         self.inflight.append(('data', bytes(data)))
@@ -137,6 +149,8 @@ class MemLoop(sysrun.OracleLoop):
         self.endpoints = []
         self.iters = 0
         self.timer_fired = []
+        self.rst = False        # writes to a dead peer may fail (second write onwards)
+        self.events = []        # callables (e.g. a process exit) that may happen at any idle moment of the active run; each at most once
         # tasks created while a simulator-side task runs belong to that simulator's process
         self.task_owner = weakref.WeakKeyDictionary()
         self.set_task_factory(MemLoop._factory)
@@ -177,6 +191,8 @@ class MemLoop(sysrun.OracleLoop):
                 opts += [('reply', i) for i in range(len(self.pending))]
                 if live:
                     opts.append(('timer', live[0]))
+                if self.active and (opts or self.events):
+                    opts += [('event', i) for i in range(len(self.events))]
                 if not opts:
                     self.active = False
                     self.verdict = 'deadlock'
@@ -188,6 +204,10 @@ class MemLoop(sysrun.OracleLoop):
                     x.deliver_head()
                 elif kind == 'reply':
                     self._deliver(x)
+                elif kind == 'event':
+                    ev = self.events.pop(x)
+                    self.deliveries.append(('event', getattr(ev, '__name__', 'event')))
+                    ev()
                 else:
                     self.now = x._when
                     self.timer_fired.append(x._when)
@@ -233,6 +253,20 @@ class MemLoop(sysrun.OracleLoop):
                 pass
             if not ep.task.done():
                 ep.ended = 'left-behind'
+        # end of the path: no simulator-side coroutine may survive into the next one
+        rest = [t for t in self.sim_side_tasks() if not t.done()]
+        for ep in self.endpoints:
+            if ep.task is not None and not ep.task.done():
+                ep.sim._log = []        # what happens from here on is clean-up of the harness, not part of the run
+        for t in rest:
+            t.cancel()
+        if rest:
+            async def reap():
+                await asyncio.gather(*rest, return_exceptions=True)
+            try:
+                self.run_until_complete(reap())
+            except (Deadlock, Livelock, Exception):
+                pass
 
 
 class Die(BaseException):
@@ -284,6 +318,13 @@ class Endpoint:
         if self.channel is not None:
             self.channel._receiver_task.cancel()
 
+    def die_now(self):
+        """the process exits at a moment of its own (not inside a handler)"""
+        self.die()
+        self.ended = 'died'
+        for t in self.tasks():
+            t.cancel()
+
     async def serve(self, reader, writer):
         # what mosaik_api_v3.run_as_client / start_simulation_async do around run_simulator
         self.channel = conn.Channel(reader, writer)
@@ -297,6 +338,9 @@ class Endpoint:
             self.ended = 'connection-error'
         except Die:
             self.ended = 'died'
+        except asyncio.CancelledError:
+            if self.ended != 'died':
+                raise
 
 
 class _Enc:
@@ -389,7 +433,7 @@ def patched():
 STUBS = [
     "remote transport in memory: asyncio.open_connection returns the mosaik end of a pair of MemTransports (documented Transport/Protocol "
     "contract: FIFO data_received, close -> local connection_lost(None) via call_soon and eof_received at the peer after the data in flight, data "
-    "for a closed peer discarded, no spontaneous ConnectionResetError); StreamReader/StreamWriter/StreamReaderProtocol, mosaik_api_v3 Channel, "
+    "for a closed peer discarded; where a job says rst, the second and later writes to a closed peer may fail: connection_lost(BrokenPipeError)); StreamReader/StreamWriter/StreamReaderProtocol, mosaik_api_v3 Channel, "
     "mosaik's start_connect and RemoteProxy and the simulator-side mosaik_api_v3.run_simulator are executed for real",
     "JSON text replaced by a table lookup ('#n'), objects converted structurally like a JSON round trip (tuples to lists, keys to str); the "
     "4-byte length framing is real",
